@@ -70,7 +70,7 @@ package types
 //@ func Apply(ctx, f, a) (res, err)
 //@   panics never
 //@   changes world
-//@   ensures applyStep(f, a, old(world()), out(res, err, world())) @C01
+//@   ensures applyStep(f, a, old(world()), out(res, err, world())) @C01,C03,C08,C12,C18
 //@   ensures out(res, err, world()) == applyOut(f, a, old(world())) @assume
 
 // ---- structural equality (C14) -------------------------------------------------------
